@@ -9,34 +9,90 @@
 (*   callback : the failed-trial callback of worker w was invoked for trial n; callback_done: it returned *)
 (*   final    : all trials as read back: n, state, hist, failed (failed_trial attr or -1), pk            *)
 (* cfg.max_retry (-1 = unlimited), cfg.inherit (0/1) travel with the trace.                             *)
+(*                                                                                                  *)
+(* Family "zombie" (the worker of a stale trial is slow, not dead, and keeps writing to its trial while *)
+(* a sweeper fails it).  Additional events:                                                            *)
+(*   content     : the content of trial n when the execution starts: c = sequence of entries            *)
+(*                 [k |-> "p" | "a" | "i", key |-> name, v |-> value token]  (parameter with its         *)
+(*                 distribution / user attribute / intermediate value)                                  *)
+(*   write_start : the worker of trial n calls suggest_* / set_user_attr / report (entry k, key)         *)
+(*   write_end   : that call returned: ok = 1 accepted (v = token of the value written), ok = 0 refused   *)
+(*                 (UpdateFinishedTrialError, or `database is locked`: no effect)                        *)
+(*   fail_start  : worker w calls set_trial_state_values(n, FAIL); the matching `fail` is its True reply  *)
+(*   final       : every trial additionally carries c (its entries as read back)                        *)
+(* The writes of one trial are sequential, so the content of the trial at the moment it became FAIL is   *)
+(* its initial content plus a prefix of its accepted writes: at least those that had returned before the *)
+(* FAIL call started, at most those that had started before the FAIL call returned (calls that overlap  *)
+(* the FAIL call may take effect on either side of it).  The retry must carry exactly such a content.    *)
 EXTENDS Integers, Sequences, FiniteSets, TraceBase
 
-VARIABLES known, failedBy, called, done
-vars == <<tix, l, known, failedBy, called, done>>
+VARIABLES known, failedBy, called, done,
+          base,     \* trial -> set of entries at the start (zombie family only)
+          wr,       \* trial -> sequence of its write calls [k, key, v, ok (-1 = not yet returned), st, en] (st/en = event positions)
+          fopen,    \* worker -> [n, st]: its FAIL call in progress
+          fiv       \* trial -> [st, en]: the event positions of the FAIL call that answered True
+vars == <<tix, l, known, failedBy, called, done, base, wr, fopen, fiv>>
+zvars == <<base, wr, fopen, fiv>>
 Is(e) == Consume /\ Ev.e = e
 Upd(f, k, v) == [x \in DOMAIN f \cup {k} |-> IF x = k THEN v ELSE f[x]]
 MaxRetry == Trace.cfg.max_retry
 
 Init == TraceInitBase /\ known = <<>> /\ failedBy = <<>> /\ called = <<>> /\ done = {}
+        /\ base = <<>> /\ wr = <<>> /\ fopen = <<>> /\ fiv = <<>>
 
 TrialEv == /\ Is("trial")
            /\ known' = Upd(known, Ev.n, [state |-> Ev.state, beat |-> Ev.beat, hist |-> Ev.hist, pk |-> Ev.pk, pkiv |-> Ev.pkiv])
-           /\ UNCHANGED <<failedBy, called, done>>
+           /\ UNCHANGED <<failedBy, called, done>> /\ UNCHANGED zvars
 BeatEv == /\ Is("beat") /\ Ev.n \in DOMAIN known
           /\ known' = [known EXCEPT ![Ev.n].beat = Ev.beat, ![Ev.n].state = Ev.state] /\ UNCHANGED <<failedBy, called, done>>
+          /\ UNCHANGED zvars
 
 Fail == /\ Is("fail") /\ Ev.n \in DOMAIN known
         /\ known[Ev.n].state = "RUNNING" /\ known[Ev.n].beat = "stale"      \* only dead RUNNING trials are touched
         /\ Ev.n \notin DOMAIN failedBy                                       \* failed by exactly one of the workers
         /\ failedBy' = Upd(failedBy, Ev.n, Ev.w)
         /\ known' = [known EXCEPT ![Ev.n].state = "FAIL"] /\ UNCHANGED <<called, done>>
+        /\ fiv' = IF Ev.w \in DOMAIN fopen /\ fopen[Ev.w].n = Ev.n       \* the call interval, if its start was logged
+                    THEN Upd(fiv, Ev.n, [st |-> fopen[Ev.w].st, en |-> l]) ELSE fiv
+        /\ UNCHANGED <<base, wr, fopen>>
 
 Callback == /\ Is("callback")
             /\ Ev.n \in DOMAIN failedBy /\ failedBy[Ev.n] = Ev.w               \* only the worker that failed it
             /\ Ev.n \notin DOMAIN called                                       \* at most once
-            /\ called' = Upd(called, Ev.n, TRUE) /\ UNCHANGED <<known, failedBy, done>>
+            /\ called' = Upd(called, Ev.n, TRUE) /\ UNCHANGED <<known, failedBy, done>> /\ UNCHANGED zvars
 \* the callback returned (a worker that dies inside its callback may or may not have queued the retry)
 CallbackDone == /\ Is("callback_done") /\ Ev.n \in DOMAIN called /\ done' = done \cup {Ev.n} /\ UNCHANGED <<known, failedBy, called>>
+                /\ UNCHANGED zvars
+
+\* ---- zombie family: the worker of the stale trial is still writing -------------------------------------------------
+ToSet(q) == {q[i] : i \in 1..Len(q)}
+ContentEv == /\ Is("content") /\ Ev.n \in DOMAIN known
+             /\ base' = Upd(base, Ev.n, ToSet(Ev.c)) /\ wr' = Upd(wr, Ev.n, <<>>)
+             /\ UNCHANGED <<known, failedBy, called, done, fopen, fiv>>
+WriteStart == /\ Is("write_start") /\ Ev.n \in DOMAIN wr
+              /\ (wr[Ev.n] # <<>> => wr[Ev.n][Len(wr[Ev.n])].ok # -1)          \* one worker per trial: its calls are sequential
+              /\ wr' = [wr EXCEPT ![Ev.n] = Append(@, [k |-> Ev.k, key |-> Ev.key, v |-> 0, ok |-> -1, st |-> l, en |-> 0])]
+              /\ UNCHANGED <<known, failedBy, called, done, base, fopen, fiv>>
+WriteEnd == /\ Is("write_end") /\ Ev.n \in DOMAIN wr /\ wr[Ev.n] # <<>>
+            /\ LET i == Len(wr[Ev.n]) IN
+                 /\ wr[Ev.n][i].ok = -1 /\ wr[Ev.n][i].k = Ev.k /\ wr[Ev.n][i].key = Ev.key /\ Ev.ok \in {0, 1}
+                 /\ wr' = [wr EXCEPT ![Ev.n][i].ok = Ev.ok, ![Ev.n][i].v = Ev.v, ![Ev.n][i].en = l]
+            /\ UNCHANGED <<known, failedBy, called, done, base, fopen, fiv>>
+FailStart == /\ Is("fail_start") /\ fopen' = Upd(fopen, Ev.w, [n |-> Ev.n, st |-> l])
+             /\ UNCHANGED <<known, failedBy, called, done, base, wr, fiv>>
+
+Kinds == IF Trace.cfg.inherit = 1 THEN {"p", "a", "i"} ELSE {"p", "a"}      \* intermediate values only if inherited
+Restrict(S) == {e \in S : e.k \in Kinds}
+Put(S, w) == {e \in S : ~(e.k = w.k /\ e.key = w.key)} \cup {[k |-> w.k, key |-> w.key, v |-> w.v]}
+RECURSIVE ApplyN(_, _, _)
+ApplyN(S, E, m) == IF m = 0 THEN S ELSE Put(ApplyN(S, E, m - 1), E[m])
+Accepted(w) == w.ok = 1
+\* c = the retry's entries; p = the failed trial: c is p's content at some moment inside p's FAIL call
+CarriesContentAtFail(p, c) ==
+  LET E  == SelectSeq(wr[p], Accepted)
+      lo == Cardinality({i \in 1..Len(E) : E[i].en < fiv[p].st})      \* had returned before the FAIL call started
+      hi == Cardinality({i \in 1..Len(E) : E[i].st < fiv[p].en})      \* had started before the FAIL call returned
+  IN \E m \in lo..hi : Restrict(ToSet(c)) = Restrict(ApplyN(base[p], E, m))
 
 \* final read-back: every retry is justified by exactly one callback, carries the original's parameters, user attributes
 \* (and intermediate values if inherited) and a correct history; chains are bounded; nothing else changed
@@ -49,8 +105,13 @@ FinalOK(fin) ==
             /\ p \in DOMAIN called                                             \* a retry exists only because of a callback
             /\ \E j \in 1..Len(fin) : fin[j].n = p /\ fin[j].state = "FAIL"
                   /\ t.hist = Append(fin[j].hist, p)                           \* history = parent's history + parent
-                  /\ t.pk = fin[j].pk                                          \* params and user attrs carried over
-                  /\ (Trace.cfg.inherit = 1 => t.pkiv = fin[j].pkiv)
+                  \* params and user attrs (and inherited intermediate values) carried over: nobody else writes to the
+                  \* failed trial, so its final content is its content when it became FAIL ...
+                  /\ (p \notin DOMAIN base \/ p \notin DOMAIN fiv) =>
+                        /\ t.pk = fin[j].pk
+                        /\ (Trace.cfg.inherit = 1 => t.pkiv = fin[j].pkiv)
+                  \* ... unless its own worker is still writing (zombie family): then the logged writes say what it was
+                  /\ (p \in DOMAIN base /\ p \in DOMAIN fiv) => CarriesContentAtFail(p, t.c)
             /\ t.failed = t.hist[1]
             /\ (MaxRetry # -1 => Len(t.hist) <= MaxRetry)                      \* never more than max_retry in a chain
        /\ (t.n \in DOMAIN known /\ t.n \notin DOMAIN failedBy /\ known[t.n].state \in {"COMPLETE", "RUNNING"})
@@ -60,8 +121,8 @@ FinalOK(fin) ==
         LET h == (CHOOSE j \in 1..Len(fin) : fin[j].n = n) IN
         (MaxRetry = -1 \/ Len(fin[h].hist) + 1 <= MaxRetry) => Cardinality(RetriesOf(fin, n)) = 1
 
-Final == Is("final") /\ FinalOK(Ev.trials) /\ UNCHANGED <<known, failedBy, called, done>>
+Final == Is("final") /\ FinalOK(Ev.trials) /\ UNCHANGED <<known, failedBy, called, done>> /\ UNCHANGED zvars
 
-Next == TrialEv \/ BeatEv \/ Fail \/ Callback \/ CallbackDone \/ Final
+Next == TrialEv \/ BeatEv \/ Fail \/ Callback \/ CallbackDone \/ Final \/ ContentEv \/ WriteStart \/ WriteEnd \/ FailStart
 Spec == Init /\ [][Next]_vars
 =================================================================================
